@@ -13,6 +13,8 @@
 -/
 import MitmVerif.Lemmas.C36
 import MitmVerif.Model.C36_Gate
+import MitmVerif.Model.C36_Shape
+import MitmVerif.Model.C36_Conv
 import MitmVerif.Lemmas.C36_Read
 namespace MitmVerif.Props.C36
 open MitmVerif MitmVerif.C36
@@ -220,26 +222,19 @@ theorem gated_never_other {α : Type} (env : Env α) (hfs : ∀ i v, env.fromSta
   simp only [gated]
   split <;> first | (intro h; cases h) | exact hfs i v
 
-/-- **C36 (which records are accepted — rejected ones).** With the reader's version check and type dispatch
-    transcribed (`gate`): a well-formed dict record whose loaded form the gate rejects — no / unknown / future
-    version, malformed version value, missing / unregistered / unhashable type — ends the read with
-    FlowReadException; exactly the flows of the good records before it are yielded, whatever follows it. -/
-theorem rejected_record_stops_reader {α : Type} (env : Env α) (vs : List Value) (fl : List α)
-    (hgood : Good (gated env) 0 vs fl) (v : Value) (tail : Bytes)
+/-- a well-formed dict record that the reader's `from_state` refuses (ValueError or another Exception) ends the read
+    with FlowReadException after exactly the flows of the good records before it -/
+private theorem refusing_record_stops {α : Type} (env : Env α) (vs : List Value) (fl : List α)
+    (hgood : Good env 0 vs fl) (v : Value) (tail : Bytes)
     (hwf : WF v) (hdict : isDict v = true) (h12 : (enc v).length < 10 ^ 12)
     (hm : (enc v).length ≤ env.memLimit) (hd : depth v ≤ env.depth)
-    (hrej : gate (mirror v) = .rejectV ∨ gate (mirror v) = .rejectX) :
-    readAll (gated env) (encList vs ++ (enc v ++ tail)) = (fl, .flowRead) := by
-  have hm' : (enc v).length ≤ (gated env).memLimit := hm
-  have hd' : depth v ≤ (gated env).depth := hd
-  have hstep : ∀ g i, streamLoop (gated env) (g + 1) i (enc v ++ tail) = ([], .flowRead) := by
+    (hfs : ∀ i, env.fromState i (mirror v) = .error .valueError ∨ env.fromState i (mirror v) = .error .exception) :
+    readAll env (encList vs ++ (enc v ++ tail)) = (fl, .flowRead) := by
+  have hstep : ∀ g i, streamLoop env (g + 1) i (enc v ++ tail) = ([], .flowRead) := by
     intro g i
-    have hfs : (gated env).fromState i (mirror v) = .error .valueError ∨
-        (gated env).fromState i (mirror v) = .error .exception := by
-      rcases hrej with h | h <;> simp [gated, h]
-    simp only [streamLoop, load_enc v tail _ _ hwf h12 hm' hd', isDict_mirror, hdict, Bool.not_true,
+    simp only [streamLoop, load_enc v tail _ _ hwf h12 hm hd, isDict_mirror, hdict, Bool.not_true,
       Bool.false_eq_true, if_false]
-    rcases hfs with h | h <;> simp [h]
+    rcases hfs i with h | h <;> simp [h]
   have hlen : ∀ l : List Value, l.length ≤ (encList l).length := by
     intro l
     induction l with
@@ -262,8 +257,22 @@ theorem rejected_record_stops_reader {α : Type} (env : Env α) (vs : List Value
   rw [← hc]
   obtain ⟨g, hg⟩ : ∃ g, (encList vs ++ (enc v ++ tail)).length + 1 = vs.length + (g + 1) :=
     ⟨(encList vs ++ (enc v ++ tail)).length - vs.length, by omega⟩
-  rw [hg, stream_records_tail (gated env) vs fl 0 (g + 1) _ hgood, hstep]
+  rw [hg, stream_records_tail env vs fl 0 (g + 1) _ hgood, hstep]
   simp
+
+/-- **C36 (which records are accepted — rejected ones).** With the reader's version check and type dispatch
+    transcribed (`gate`): a well-formed dict record whose loaded form the gate rejects — no / unknown / future
+    version, malformed version value, missing / unregistered / unhashable type — ends the read with
+    FlowReadException; exactly the flows of the good records before it are yielded, whatever follows it. -/
+theorem rejected_record_stops_reader {α : Type} (env : Env α) (vs : List Value) (fl : List α)
+    (hgood : Good (gated env) 0 vs fl) (v : Value) (tail : Bytes)
+    (hwf : WF v) (hdict : isDict v = true) (h12 : (enc v).length < 10 ^ 12)
+    (hm : (enc v).length ≤ env.memLimit) (hd : depth v ≤ env.depth)
+    (hrej : gate (mirror v) = .rejectV ∨ gate (mirror v) = .rejectX) :
+    readAll (gated env) (encList vs ++ (enc v ++ tail)) = (fl, .flowRead) := by
+  apply refusing_record_stops (gated env) vs fl hgood v tail hwf hdict h12 hm hd
+  intro i
+  rcases hrej with h | h <;> simp [gated, h]
 
 /-- **C36 (which records are accepted — accepted ones).** A record passes the transcribed dispatch only if its
     normalised version is the current flow format version and its `type` is a registered flow type. -/
@@ -294,6 +303,215 @@ theorem gate_pass_current_and_registered (v : Value) (ty : Bytes) (h : gate v = 
       · simp only [hcur, if_false] at h
         split at h <;> simp at h
   | _ => simp [gate] at h
+
+/-- the shape requirements keep the reader inside `never_other`'s hypothesis -/
+theorem shaped_never_other {α : Type} (env : Env α) (hfs : ∀ i v, env.fromState i v ≠ .error .nonException)
+    (file : Bytes) : (readAll (shaped env) file).2 = .clean ∨ (readAll (shaped env) file).2 = .flowRead := by
+  apply never_other
+  intro i v
+  cases hg : gate v with
+  | rejectV => simp [shaped, hg]
+  | rejectX => simp [shaped, hg]
+  | defer => simpa [shaped, hg] using hfs i v
+  | deferShape => simpa [shaped, hg] using hfs i v
+  | pass ty =>
+    cases v with
+    | dict kvs =>
+      simp only [shaped, hg]
+      by_cases hs : shape ty kvs = .bad
+      · simp only [hs, if_true]
+        cases hf : env.fromState i (.dict kvs) with
+        | ok _ => simp
+        | error e => simpa [hf] using hfs i (.dict kvs)
+      · simpa [hs] using hfs i (.dict kvs)
+    | _ => simp [gate] at hg
+
+/-- **C36 (which records become flows).** Whatever the remaining parameter (field types, certificates, mode specs …) says:
+    a record is turned into a flow only if it is `Acceptable` — an older version that has a converter, or the current
+    version with a registered `type` and the shape `set_state` of that flow class needs: all keys it pops, no key besides
+    "backup", connection states with exactly their field names, `error` / `response` / `websocket` falsy or complete,
+    `request` complete, `messages` iterable. -/
+theorem accepted_record_is_wellshaped {α : Type} (env : Env α) (i : Nat) (v : Value) (x : α)
+    (h : (shaped env).fromState i v = .ok x) : Acceptable v := by
+  cases hg : gate v with
+  | rejectV => simp [shaped, hg] at h
+  | rejectX => simp [shaped, hg] at h
+  | defer => exact Or.inl hg
+  | deferShape => exact Or.inr (Or.inl hg)
+  | pass ty =>
+    cases v with
+    | dict kvs =>
+      by_cases hs : shape ty kvs = .bad
+      · simp only [shaped, hg, hs, if_true] at h
+        cases hf : env.fromState i (.dict kvs) with
+        | ok _ => rw [hf] at h; cases h
+        | error e => rw [hf] at h; cases h
+      · exact Or.inr (Or.inr ⟨ty, kvs, rfl, hg, hs⟩)
+    | _ => simp [gate] at hg
+
+/-- **C36 (every flow of every file).** For ANY byte string: the flows the reader loop yields correspond one to one to
+    loaded records (`yieldedFrom`), and every one of those records is `Acceptable`. -/
+theorem yielded_flows_come_from_acceptable_records {α : Type} (env : Env α) :
+    ∀ (f i : Nat) (s : Bytes),
+      (yieldedFrom (shaped env) f i s).length = (streamLoop (shaped env) f i s).1.length ∧
+      ∀ v ∈ yieldedFrom (shaped env) f i s, Acceptable v := by
+  intro f
+  induction f with
+  | zero => intro i s; simp [yieldedFrom, streamLoop]
+  | succ f ih =>
+    intro i s
+    simp only [yieldedFrom, streamLoop]
+    have hml : (shaped env).memLimit = env.memLimit := rfl
+    cases hl : load (shaped env).memLimit (shaped env).depth s with
+    | error e =>
+      simp only []
+      by_cases he : e = .emptyFile
+      · simp [he]
+      · by_cases hc : caughtOuter e = true <;> simp [he, hc]
+    | ok p =>
+      obtain ⟨v, rest⟩ := p
+      simp only []
+      by_cases hd : isDict v = true
+      · simp only [hd, Bool.not_true, Bool.false_eq_true, if_false]
+        cases hf : (shaped env).fromState i v with
+        | error x => cases x <;> simp
+        | ok fl =>
+          simp only []
+          obtain ⟨h1, h2⟩ := ih (i + 1) rest
+          refine ⟨by simp [h1], ?_⟩
+          intro w hw
+          rcases List.mem_cons.mp hw with hw | hw
+          · rw [hw]; exact accepted_record_is_wellshaped env i v fl hf
+          · exact h2 w hw
+      · simp [hd]
+
+/-- **C36 (which records are accepted — ill-shaped ones).** A well-formed dict record of the current version and a
+    registered type whose shape `set_state` refuses (a popped key missing, a foreign key, a connection state with a field
+    missing or unknown, a truthy but incomplete `error` / `response` / `websocket`, an incomplete `request`, non-iterable
+    `messages`) ends the read with FlowReadException after exactly the flows before it — whatever the parameter says about it. -/
+theorem illshaped_record_stops_reader {α : Type} (env : Env α) (hnx : ∀ i v, env.fromState i v ≠ .error .nonException)
+    (vs : List Value) (fl : List α) (hgood : Good (shaped env) 0 vs fl) (v : Value) (tail : Bytes)
+    (hwf : WF v) (hdict : isDict v = true) (h12 : (enc v).length < 10 ^ 12)
+    (hm : (enc v).length ≤ env.memLimit) (hd : depth v ≤ env.depth)
+    (ty : Bytes) (kvs : List (Value × Value)) (hv : mirror v = .dict kvs) (hg : gate (.dict kvs) = .pass ty)
+    (hs : shape ty kvs = .bad) :
+    readAll (shaped env) (encList vs ++ (enc v ++ tail)) = (fl, .flowRead) := by
+  apply refusing_record_stops (shaped env) vs fl hgood v tail hwf hdict h12 hm hd
+  intro i
+  rw [hv]
+  simp only [shaped, hg, hs, if_true]
+  cases hf : env.fromState i (.dict kvs) with
+  | ok _ => exact Or.inr rfl
+  | error e =>
+    cases e with
+    | valueError => exact Or.inl rfl
+    | exception => exact Or.inr rfl
+    | nonException => exact absurd hf (hnx i _)
+
+/-- what `converted` does for a record, by cases (used by the three theorems below) -/
+private theorem converted_fromState {α : Type} (env : Env α) (i : Nat) (v : Value) :
+    (converted env).fromState i v =
+      match gate v, v with
+      | .defer, .dict kvs =>
+        match convert kvs with
+        | .refusedV => .error .valueError
+        | .refusedX => .error .exception
+        | .current ty d =>
+          if shape ty d = .bad then
+            match env.fromState i v with
+            | .ok _ => .error .exception
+            | .error e => .error e
+          else env.fromState i v
+        | .notModelled => env.fromState i v
+      | _, _ => (shaped env).fromState i v := rfl
+
+/-- with the converter chain for formats 19 / 20 transcribed the reader still ends cleanly or with FlowReadException -/
+theorem converted_never_other {α : Type} (env : Env α) (hfs : ∀ i v, env.fromState i v ≠ .error .nonException)
+    (file : Bytes) : (readAll (converted env) file).2 = .clean ∨ (readAll (converted env) file).2 = .flowRead := by
+  apply never_other
+  intro i v
+  have hsh : (shaped env).fromState i v ≠ .error .nonException := by
+    cases hg : gate v with
+    | rejectV => simp [shaped, hg]
+    | rejectX => simp [shaped, hg]
+    | defer => simpa [shaped, hg] using hfs i v
+    | deferShape => simpa [shaped, hg] using hfs i v
+    | pass ty =>
+      cases v with
+      | dict kvs =>
+        simp only [shaped, hg]
+        by_cases hs : shape ty kvs = .bad
+        · simp only [hs, if_true]
+          cases hf : env.fromState i (.dict kvs) with
+          | ok _ => simp
+          | error e => simpa [hf] using hfs i (.dict kvs)
+        · simpa [hs] using hfs i (.dict kvs)
+      | _ => simp [gate] at hg
+  rw [converted_fromState]
+  cases hg : gate v with
+  | defer =>
+    cases v with
+    | dict kvs =>
+      simp only []
+      cases hc : convert kvs with
+      | refusedV => simp
+      | refusedX => simp
+      | notModelled => simpa using hfs i (.dict kvs)
+      | current ty d =>
+        simp only []
+        by_cases hs : shape ty d = .bad
+        · simp only [hs, if_true]
+          cases hf : env.fromState i (.dict kvs) with
+          | ok _ => simp
+          | error e => simpa [hf] using hfs i (.dict kvs)
+        · simpa [hs] using hfs i (.dict kvs)
+    | _ => simpa [hg] using hsh
+  | _ => simpa [hg] using hsh
+
+/-- **C36 (older formats 19 and 20).** A well-formed dict record of flow format 19 or 20 for which the transcribed chain
+    (`convert_19_20`, `convert_20_21` of Model/C38_Conv inside `migrate_flow`'s loop, then the type dispatch) fails — a
+    converter meets a missing / ill-typed connection state, the version sits under the stale bytes key, the type is missing
+    or unregistered — ends the read with FlowReadException after exactly the flows before it. -/
+theorem unconvertible_record_stops_reader {α : Type} (env : Env α)
+    (vs : List Value) (fl : List α) (hgood : Good (converted env) 0 vs fl) (v : Value) (tail : Bytes)
+    (hwf : WF v) (hdict : isDict v = true) (h12 : (enc v).length < 10 ^ 12)
+    (hm : (enc v).length ≤ env.memLimit) (hd : depth v ≤ env.depth)
+    (kvs : List (Value × Value)) (hv : mirror v = .dict kvs) (hg : gate (.dict kvs) = .defer)
+    (hc : (match convert kvs with | .refusedV => true | .refusedX => true | _ => false) = true) :
+    readAll (converted env) (encList vs ++ (enc v ++ tail)) = (fl, .flowRead) := by
+  apply refusing_record_stops (converted env) vs fl hgood v tail hwf hdict h12 hm hd
+  intro i
+  rw [hv, converted_fromState]
+  simp only [hg]
+  cases hcv : convert kvs with
+  | refusedV => exact Or.inl rfl
+  | refusedX => exact Or.inr rfl
+  | current ty d => rw [hcv] at hc; simp at hc
+  | notModelled => rw [hcv] at hc; simp at hc
+
+/-- **C36 (which older records become flows).** A format-19/20 record is turned into a flow only if the chain converts it,
+    its type is registered and the CONVERTED state has the shape `set_state` needs (or the case is outside the transcription). -/
+theorem converted_accept_needs_convertible {α : Type} (env : Env α) (i : Nat) (kvs : List (Value × Value)) (x : α)
+    (hg : gate (.dict kvs) = .defer) (h : (converted env).fromState i (.dict kvs) = .ok x) :
+    (match convert kvs with
+      | .refusedV => False
+      | .refusedX => False
+      | .current ty d => shape ty d ≠ .bad
+      | .notModelled => True) := by
+  rw [converted_fromState] at h
+  simp only [hg] at h
+  cases hc : convert kvs with
+  | refusedV => rw [hc] at h; cases h
+  | refusedX => rw [hc] at h; cases h
+  | notModelled => trivial
+  | current ty d =>
+    rw [hc] at h
+    simp only [] at h ⊢
+    intro hs
+    simp only [hs, if_true] at h
+    cases hf : env.fromState i (.dict kvs) with
+    | ok _ => rw [hf] at h; cases h
+    | error e => rw [hf] at h; cases h
 
 /-- **C36 (reads may be chunked any way).** `BufferedReader.read(k)` over a raw stream that delivers its content in
     ANY segments returns the same bytes, and leaves the same unread content, as reading the concatenated content. -/
@@ -371,5 +589,24 @@ example : gate (.dict [kv "version" (.list [.list [], .int 1])]) = .rejectX := b
 example : peekSeg [[0x31, 0x32, 0x3a]] 13 = [0x31, 0x32, 0x3a] ∧ peekSeg [[0x31], [0x32, 0x3a]] 13 = [0x31] := by decide +kernel
 example : (loadVia readN 100 5 20 [[0x33], [0x3a, 0x61], [0x62, 0x63, 0x2c, 0x78]]).map (fun p => (p.1, p.2.flatten))
     = .ok (.bytes [0x61, 0x62, 0x63], [0x78]) := by rfl
+
+-- the shape requirements on concrete records (current version, type tcp)
+private def tcpKeys : List (Value × Value) :=
+  (Gen.C36.typeKeys.find? (·.1 == sb "tcp")).map (fun p => p.2.map (fun k => (Value.str k, Value.null))) |>.getD []
+example : exactKeys tcpKeys ((Gen.C36.typeKeys.find? (·.1 == sb "tcp")).map (·.2) |>.getD []) [bBackup] = true := by decide +kernel
+example : shape (sb "tcp") tcpKeys = .bad := by decide +kernel                       -- client_conn is None, not a connection state
+example : shape (sb "tcp") (tcpKeys.drop 1) = .bad := by decide +kernel              -- a popped key missing
+example : optSub (some (.dict [])) Gen.C36.responseKeys = .good ∧ optSub (some (.int 5)) Gen.C36.responseKeys = .bad
+    ∧ optSub (some (.float [0x30, 0x2e, 0x30])) Gen.C36.responseKeys = .unknown := by decide +kernel
+
+-- formats 19 / 20 on concrete records: a bare {"version": 20} dies inside convert_20_21 (KeyError 'client_conn');
+-- the version under the stale bytes key is refused after one conversion ("conflicting version information")
+private def conn : Value := .dict [kv "tls_version" (.str "QUIC".toUTF8.toList)]
+example : (match convert [kv "version" (.int 20)] with | .refusedX => true | _ => false) = true := by decide +kernel
+example : (match convert [(.bytes bVersion, .int 20), kv "client_conn" conn, kv "server_conn" conn] with
+    | .refusedV => true | _ => false) = true := by decide +kernel
+example : (match convert [kv "version" (.int 20), kv "type" (.str "tcp".toUTF8.toList), kv "client_conn" conn, kv "server_conn" conn] with
+    | .current ty d => ty == sb "tcp" && (match C38Conv.dget d (sb "version") with | some (Value.int n) => n == 21 | _ => false)
+    | _ => false) = true := by decide +kernel
 
 end MitmVerif.Props.C36
